@@ -957,7 +957,7 @@ Proof.
   destruct (init_stdio (s_stdio sp) (s_tbl sp) (s_fresh sp) 0 (s_sp_fail sp)) as [[[t1 ps] f1] err].
   destruct err.
   - inversion E; subst. reflexivity.
-  - destruct (spawn_child t1 (pad3 3 (map snd ps)) f1 (s_pipe_fail sp) (s_fork_fail sp) (s_exec_err sp) wo)
+  - destruct (spawn_child t1 (pad3 3 (map snd ps)) f1 (s_pipe_fail sp) (s_fork_fail sp) (eff_exec_err sp) wo)
       as [[[[[eno t2] c] wrote] reaped] wo2].
     destruct (open_streams (s_stdio sp) ps 0 t2) as [t3 streams].
     inversion E; subst. simpl in *. apply Z.eqb_neq. auto.
@@ -970,7 +970,7 @@ Proof.
   destruct (init_stdio (s_stdio sp) (s_tbl sp) (s_fresh sp) 0 (s_sp_fail sp)) as [[[t1 ps] f1] err].
   destruct err.
   - simpl. auto.
-  - destruct (spawn_child t1 (pad3 3 (map snd ps)) f1 (s_pipe_fail sp) (s_fork_fail sp) (s_exec_err sp) wo)
+  - destruct (spawn_child t1 (pad3 3 (map snd ps)) f1 (s_pipe_fail sp) (s_fork_fail sp) (eff_exec_err sp) wo)
       as [[[[[eno t2] c] wrote] reaped] wo2].
     destruct (open_streams (s_stdio sp) ps 0 t2) as [t3 streams].
     simpl. intros H. apply Z.eqb_neq. auto.
@@ -1026,7 +1026,7 @@ Qed.
 Definition clobber_spec : spec :=
   mkSpec [Some (mkE 1 false); Some (mkE 2 false); Some (mkE 3 false)]
          [SFd 0; SFd 1; SFd 2; SFd 0; SFd 1; SFd 2]
-         true 7 10 None false false (Some 2%Z) [].
+         true 7 10 None false false (Some 2%Z) [] (mkC 0 0 0) (mkC 0 0 0) None None.
 
 Lemma clobber_spec_now :
   r_ret (fst (uv_spawn clobber_spec [WPid 32512%Z])) = (-2)%Z /\
@@ -1095,9 +1095,9 @@ Proof.
   rewrite E. destruct e.
   - simpl. rewrite C. reflexivity.
   - pose proof (spawn_child_restores (s_tbl sp) (pad3 3 (map snd ps)) (s_fresh sp)
-                  (s_pipe_fail sp) (s_fork_fail sp) (s_exec_err sp) wo d) as R.
+                  (s_pipe_fail sp) (s_fork_fail sp) (eff_exec_err sp) wo d) as R.
     destruct (spawn_child (s_tbl sp) (pad3 3 (map snd ps)) (s_fresh sp) (s_pipe_fail sp)
-                (s_fork_fail sp) (s_exec_err sp) wo) as [[[[[eno t2] c] wrote] reaped] wo2].
+                (s_fork_fail sp) (eff_exec_err sp) wo) as [[[[[eno t2] c] wrote] reaped] wo2].
     rewrite O'. simpl in *. exact R.
 Qed.
 
@@ -1199,7 +1199,7 @@ Definition inherited_open (sp : spec) : Prop :=
 Theorem spawn_fds sp wo :
   no_bad (s_stdio sp) -> inherited_open sp ->
   s_sp_fail sp = None -> s_pipe_fail sp = false -> s_fork_fail sp = false ->
-  s_exec_err sp = None ->
+  eff_exec_err sp = None ->
   let r := fst (uv_spawn sp wo) in
   let sc := Nat.max 3 (length (s_stdio sp)) in
   r_ret r = 0%Z /\ r_active r = true /\
@@ -1325,9 +1325,9 @@ Proof.
     destruct Sj as (a2 & b2 & T1 & _ & T3 & _). rewrite Hp in T1. inversion T1; subst.
     intros <-. rewrite S2 in T3. inversion T3. lia. }
   pose proof (spawn_child_restores t1 (pad3 3 (map snd ps)) (s_fresh sp + 2 * npipes (s_stdio sp))
-                (s_pipe_fail sp) (s_fork_fail sp) (s_exec_err sp) wo a) as R.
+                (s_pipe_fail sp) (s_fork_fail sp) (eff_exec_err sp) wo a) as R.
   destruct (spawn_child t1 (pad3 3 (map snd ps)) (s_fresh sp + 2 * npipes (s_stdio sp))
-              (s_pipe_fail sp) (s_fork_fail sp) (s_exec_err sp) wo)
+              (s_pipe_fail sp) (s_fork_fail sp) (eff_exec_err sp) wo)
     as [[[[[eno t2] c] wrote] reaped] wo2].
   destruct (open_streams (s_stdio sp) ps 0 t2) as [t3 streams] eqn:Eo.
   destruct (open_streams_spec _ _ _ _ _ _ Eo) as (A & B).
@@ -1373,7 +1373,7 @@ Qed.
 Theorem spawn_exec_failure sp wo e :
   no_bad (s_stdio sp) -> inherited_open sp ->
   s_sp_fail sp = None -> s_pipe_fail sp = false -> s_fork_fail sp = false ->
-  s_exec_err sp = Some e ->
+  eff_exec_err sp = Some e ->
   let r := fst (uv_spawn sp wo) in
   r_ret r = (- e)%Z /\ r_active r = (- e =? 0)%Z /\ r_reaped r = Some (fst (wait_retry wo)).
 Proof.
@@ -1467,9 +1467,9 @@ Proof.
   pose proof (init_stdio_new _ _ _ _ Hb _ _ _ _ E) as New.
   rewrite E.
   pose proof (spawn_child_restores t1 (pad3 3 (map snd ps)) (s_fresh sp + 2 * npipes (s_stdio sp))
-                (s_pipe_fail sp) (s_fork_fail sp) (s_exec_err sp) wo) as R.
+                (s_pipe_fail sp) (s_fork_fail sp) (eff_exec_err sp) wo) as R.
   destruct (spawn_child t1 (pad3 3 (map snd ps)) (s_fresh sp + 2 * npipes (s_stdio sp))
-              (s_pipe_fail sp) (s_fork_fail sp) (s_exec_err sp) wo)
+              (s_pipe_fail sp) (s_fork_fail sp) (eff_exec_err sp) wo)
     as [[[[[eno t2] c] wrote] reaped] wo2].
   destruct (open_streams (s_stdio sp) ps 0 t2) as [t3 streams] eqn:Eo.
   destruct (open_streams_spec _ _ _ _ _ _ Eo) as (A & B).
@@ -1489,7 +1489,7 @@ Qed.
 Theorem failed_spawn_clean sp wo e :
   no_bad (s_stdio sp) -> inherited_open sp ->
   s_sp_fail sp = None -> s_pipe_fail sp = false -> s_fork_fail sp = false ->
-  s_exec_err sp = Some e -> e <> 0%Z ->
+  eff_exec_err sp = Some e -> e <> 0%Z ->
   let r := fst (uv_spawn sp wo) in
   r_ret r = (- e)%Z /\ r_active r = false /\ r_reaped r = Some (fst (wait_retry wo)) /\
   (forall d, (forall i, ~ In (i, d) (r_streams r)) -> get (r_ptbl r) d = get (s_tbl sp) d) /\
@@ -1512,7 +1512,7 @@ Proof.
   unfold uv_spawn.
   destruct (init_stdio (s_stdio sp) (s_tbl sp) (s_fresh sp) 0 (s_sp_fail sp)) as [[[t1 ps] f1] err].
   destruct err; [reflexivity|].
-  destruct (spawn_child t1 (pad3 3 (map snd ps)) f1 (s_pipe_fail sp) (s_fork_fail sp) (s_exec_err sp) wo)
+  destruct (spawn_child t1 (pad3 3 (map snd ps)) f1 (s_pipe_fail sp) (s_fork_fail sp) (eff_exec_err sp) wo)
     as [[[[[eno t2] c] wrote] reaped] wo2].
   destruct (open_streams (s_stdio sp) ps 0 t2) as [t3 streams].
   destruct (s_pipe_fail sp); [reflexivity|].
